@@ -85,6 +85,11 @@ CALLBACK_FORMS = [
     ("unique-key", "unique([1, 2], fn(x) {F})"), ("sum-key", "sum([1, 2], fn(x) {F})"), ("compose", "compose(fn(x) {F}, fn(x) x)(1)"),
     ("method", "def o = <*m = fn(self) {F}*>; o->m()"), ("default-arg", "def f(a = {F}) a; f()"), ("comprehension", "[{F} for x in [1, 2]]"),
     ("set-comprehension", "<<{F} for x in [1, 2]>>"), ("map-comprehension", "<<<x => {F} for x in [1, 2]>>>"), ("spread-arg", "identity(...[{F}])"),
+    ("for-input", "for line in str_input('a\\nb') do {F} end"), ("comprehension-input", "[{F} for line in str_input('a\\nb')]"),
+    ("for-string", "for ch in 'ab' do {F} end"), ("for-set", "for x in <<1, 2>> do {F} end"), ("for-map-entries", "for [k, v] in entries <<<1 => 2>>> do {F} end"),
+    ("for-object", "for k in keys <*a = 1*> do {F} end"), ("while", "def go = TRUE; while go do go = FALSE; {F} end"),
+    ("if-condition", "if {F} then 1 else 2"), ("index-expr", "[1, 2][do {F}; 0 end]"), ("map-literal-key", "<<<({F}) => 1>>>"),
+    ("finally-part", "do 1 finally {F} end"), ("catch-handler", "do error 'inner-x' catch 'inner-x' {F} end"),
     ("nested-sorted", "sorted([[2], [1]], key = fn(l) sorted(l, cmp = fn(a, b) {F}))"), ("nested-sorted2", "sorted([[2, 3], [1, 4]], key = fn(l) sorted(l, cmp = fn(a, b) {F}))"),
 ]
 CALLBACK_ERRVALS = ["'E1'", "'ERROR'", "12", "1.5", "[1, 'a']", "<<1>>", "<<<'k' => 1>>>", "TRUE", "NULL", "date('20200101')", "//a//", "''"]
